@@ -190,6 +190,19 @@ REVERTS = [
                 # strings here): never prune on them
                 continue
 """, ""),
+    ('revert-F48-lossy-float-to-int-cast', ['C07', 'C18', 'C19'], 'fastparquet/writer.py',
+     """                if not np.isfinite(values).all() or (values != np.trunc(values)).any():
+""", """                if False:
+"""),
+    ('revert-F49-int-metadata-believed-blindly', ['C17'], 'fastparquet/api.py',
+     """                            trusted = True
+""", """                            continue
+"""),
+    ('revert-F50-int96-dtypes-without-zone', ['C17'], 'fastparquet/api.py',
+     """                    if tz is not None and tz.get(col, False):
+                        z = dataframe.tz_to_dt_tz(tz[col])
+                        dt = pd.Series([], dtype=dt).dt.tz_localize(z).dtype
+""", ""),
 ]
 
 # functions whose twins are run per property (module, qualname)
